@@ -96,7 +96,7 @@ pub fn check(case: &Case, ctx: &mut Ctx) -> R {
 }
 
 pub fn strategy(thorough: bool) -> impl Strategy<Value = Case> {
-    let (max_e, max_ops) = if thorough { (30, 16) } else { (12, 8) };
+    let (max_e, max_ops) = if thorough { (20, 12) } else { (12, 8) };
     (
         mixed_hist_strategy(max_e, max_ops),
         prop_oneof![Just(CacheKind::None), Just(CacheKind::Default)],
@@ -112,7 +112,7 @@ pub fn run(eng: &mut Engine) {
     eng.prop_part(
         "audit",
         "generated histories; after every effective publish audit(cur-1,cur) and audit(0,cur); after the last publish ALL pairs 0<=s<e<=cur plus 9 invalid requests; non-trivial = history with >=2 audited ranges that end before the latest epoch and span >=2 epochs; distinct by history",
-        eng.tier.pick(1000, 10_000),
+        eng.tier.pick(1000, 5_000),
         || strategy(thorough),
         check,
     );
